@@ -71,3 +71,16 @@ func VerifC11DiffRemote() {
 		rt.Reach("answered")
 	}
 }
+
+// VerifC07Boundary: two one-element indexes whose (id, head) pairs differ but concatenate to the same bytes.
+func VerifC07Boundary() {
+	vC07Setup(0, 1)
+	d1 := newDiff(2, 1).(*diff)
+	d2 := newDiff(2, 1).(*diff)
+	d1.Set(Element{Id: "ab", Head: "c"})
+	d2.Set(Element{Id: "a", Head: "bc"})
+	newIds, changedIds, removedIds, err := d1.Diff(context.Background(), d2)
+	rt.Assert(err == nil, "diff-no-error")
+	rt.Assert(len(newIds) == 1 && len(removedIds) == 1 && len(changedIds) == 0, "ids-that-differ-are-reported-whatever-their-lengths")
+	rt.Reach("diffed")
+}
